@@ -310,7 +310,20 @@ Net ==
          b2 == Chk(b1, ~orig \/ (Ev.crc /\ Ev.wf), "C13", "ChecksumCorrect", [dir |-> from])
          b3 == Chk(b2, ~orig \/ tagOk, "C13", "PeerVerificationTag", [dir |-> from, vtag |-> Ev.vtag, want |-> ep[to].tag])
          b4 == Chk(b3, ~orig \/ ~quiet \/ OnlyControl(Ev.types), "C13", "Quiescent", [dir |-> from, types |-> Ev.types])
-     IN /\ bad' = b4
+         \* A SACK acknowledges only what its sender has received (or was told to skip by FORWARD-TSN):
+         \* cumulative TSN at most the receiver's in-order point, every gap-acked TSN received.  The monitor's
+         \* receiver state can only be ahead of the moment the SACK was built, and "received" only grows,
+         \* so correct code never trips this; acknowledging data that did not arrive lets the peer discard
+         \* it, which no later retransmission can repair (C01).
+         r == ep[from].rx
+         sackOk(k) == LET sk == Ev.sacks[k]
+                          gs == GapSetOf(sk.cum, sk.gaps)
+                      IN /\ (sk.cum = r.cum \/ ~TsnGT(sk.cum, r.cum))
+                         /\ \A t \in gs : t = r.cum \/ ~TsnGT(t, r.cum) \/ (\E x \in r.rcvd : x.tsn = t)
+         hasSacks == "sacks" \in DOMAIN Ev
+         b5 == Chk(b4, ~orig \/ ~r.has \/ ~hasSacks \/ (\A k \in 1..Len(Ev.sacks) : sackOk(k)), "C01", "AcksOnlyReceived",
+                   [dir |-> from, have |-> r.cum])
+     IN /\ bad' = b5
         \* the initiate tag a side announces is the tag its peer must use from then on
         /\ ep' = IF Ev.itag # 0 /\ ep[from].tag = 0 THEN [ep EXCEPT ![from].tag = Ev.itag] ELSE ep
   /\ UNCHANGED <<sc, chans, subidx, app, quiet, ext>> /\ Adv
